@@ -18,17 +18,17 @@ const LocalPath = "sim.local/pkg"
 type Kind int
 
 const (
-	AddUse      Kind = iota // add `var _ = <pkg>.<Name>` using an Ident with Path set
-	AddCall                 // add a call statement to the first function body
-	RemoveDecl              // remove the n-th non-import declaration
-	Repath                  // change the Path of the n-th remote identifier to another package
-	Unpath                  // make the n-th remote identifier local
-	AddComment              // add a comment to the n-th declaration
-	SwapDecls               // swap two non-import declarations
-	RemoveUses              // make every use of one package local (its import must then go)
-	DropImportSpec          // hand-edit: delete the n-th import spec from its declaration (File.Imports is left as it was)
-	AddImportSpec           // hand-edit: append an import spec to the first import declaration (File.Imports is left as it was)
-	UnpathAll               // make every remote identifier local: every import becomes unused at once
+	AddUse         Kind = iota // add `var _ = <pkg>.<Name>` using an Ident with Path set
+	AddCall                    // add a call statement to the first function body
+	RemoveDecl                 // remove the n-th non-import declaration
+	Repath                     // change the Path of the n-th remote identifier to another package
+	Unpath                     // make the n-th remote identifier local
+	AddComment                 // add a comment to the n-th declaration
+	SwapDecls                  // swap two non-import declarations
+	RemoveUses                 // make every use of one package local (its import must then go)
+	DropImportSpec             // hand-edit: delete the n-th import spec from its declaration (File.Imports is left as it was)
+	AddImportSpec              // hand-edit: append an import spec to the first import declaration (File.Imports is left as it was)
+	UnpathAll                  // make every remote identifier local: every import becomes unused at once
 	NumKinds
 )
 
